@@ -13,8 +13,8 @@ EXTENDS MasterEv, MDevSets, Json
 
 CONSTANTS Alpha, MaxSteps, MaxReq, MonName
 
-VARIABLES s, ev, m, hist
-vars == <<s, ev, m, hist>>
+VARIABLES s, ev, m, hist, prev      \* prev: the state before the last step (for the transition cover)
+vars == <<s, ev, m, hist, prev>>
 
 Mon15 == INSTANCE Mon_C15
 Mon16 == INSTANCE Mon_C16
@@ -105,12 +105,12 @@ InputsSched(st) ==
 
 Inputs(st) == CASE Alpha = "resp" -> InputsResp(st) [] Alpha = "startup" -> InputsStartup(st) [] OTHER -> InputsSched(st)
 
-Init == s = Init0 /\ ev = ResetEv /\ m = MStep(MInit, ResetEv, 0) /\ hist = <<>>
+Init == s = Init0 /\ ev = ResetEv /\ m = MStep(MInit, ResetEv, 0) /\ hist = <<>> /\ prev = Init0
 Next == /\ Len(hist) < MaxSteps
         /\ \E in \in Inputs(s) :
               LET s1 == Apply(s, in)
                   e == BuildEv(s, in, s1)
-              IN s' = s1 /\ ev' = e /\ m' = MStep(m, e, Len(hist) + 1) /\ hist' = Append(hist, in)
+              IN s' = s1 /\ ev' = e /\ m' = MStep(m, e, Len(hist) + 1) /\ hist' = Append(hist, in) /\ prev' = s
 Spec == Init /\ [][Next]_vars
 
 PViol(mm) == SelectSeq(mm.viol, LAMBDA v : v.prop = MonName)
@@ -130,19 +130,20 @@ AbsState(st) ==
 InKind(h) == IF h = <<>> THEN <<"init">>
              ELSE LET i == h[Len(h)]
                   IN CASE i.k = "rx" -> <<"rx", i.f.fc, i.f.fir, i.f.fin, i.f.con, i.f.src, i.f.iin, i.f.body,
-                                          i.f.seq = CurSeq(s)>>
+                                          i.f.seq = CurSeq(prev)>>
                        [] i.k = "req" -> <<"req", i.m.k, IF i.m.k = "task" THEN i.m.task.t ELSE "", i.m.a>>
                        [] i.k = "adv" -> <<"adv", i.dt > 50, i.dt > 700>>
                        [] OTHER -> <<i.k>>
-CoverView == <<AbsState(s), InKind(hist)>>
+\* abstract transition = (abstract source state, input kind, abstract target state)
+CoverView == <<AbsState(prev), InKind(hist), AbsState(s)>>
 ExportAll == hist = <<>> \/ PrintT(<<"SCENARIO", ToJson(hist)>>)
 Export == Len(hist) < MaxSteps \/ PrintT(<<"SCENARIO", ToJson(hist)>>)
 
 \* ---- constant values
 A_quiet(addr) == [addr |-> addr, rt |-> 1000, dis |-> FALSE, integ |-> FALSE, en |-> FALSE, tsync |-> "",
-                  rmin |-> 1000, rmax |-> 4000, ka |-> -1, ovfInteg |-> FALSE, evscan |-> FALSE, maxq |-> 2]
+                  rmin |-> 1000, rmax |-> 4000, ka |-> -1, ovfInteg |-> FALSE, evscan |-> FALSE, maxq |-> 2, clock |-> TRUE]
 A_full(addr) == [addr |-> addr, rt |-> 1000, dis |-> TRUE, integ |-> TRUE, en |-> TRUE, tsync |-> "",
-                 rmin |-> 1000, rmax |-> 4000, ka |-> -1, ovfInteg |-> TRUE, evscan |-> FALSE, maxq |-> 2]
+                 rmin |-> 1000, rmax |-> 4000, ka |-> -1, ovfInteg |-> TRUE, evscan |-> FALSE, maxq |-> 2, clock |-> TRUE]
 A_ka(addr) == [A_quiet(addr) EXCEPT !.ka = 3000]
 Cfg_quiet1 == <<A_quiet(1024)>>
 Cfg_full1 == <<A_full(1024)>>
@@ -151,6 +152,8 @@ Cfg_ka2 == <<A_ka(1024), A_quiet(1025)>>
 Cfg_quiet3 == <<A_quiet(1024), A_quiet(1025), A_quiet(1026)>>
 Cfg_tsync1 == <<[A_full(1024) EXCEPT !.tsync = "nonlan"]>>
 Cfg_tlan1 == <<[A_full(1024) EXCEPT !.tsync = "lan"]>>
+Cfg_noclock1 == <<[A_quiet(1024) EXCEPT !.clock = FALSE]>>
+Cfg_tnoclock1 == <<[A_full(1024) EXCEPT !.tsync = "nonlan", !.clock = FALSE]>>
 DEVM_none == {}
 DEVM_d9 == {"NoConfirmForNonRead"}
 DEVM_d18 == {"LinkStatusTimeoutRearms"}
